@@ -92,8 +92,12 @@ def payload_index(stream, fname):
     return _idx[key]
 
 
+OTHER_TEMPLATES = ('manifest_a', 'manifest_b', 'manifest_e', 'manifest_ef', 'manifest_h', 'manifest_i', 'manifest_n')
+
+
 def execute(item):
-    di, periods, mode, opts, clock_offsets = item
+    di, periods, mode, opts, clock_offsets = item[:5]
+    template = item[5] if len(item) > 5 else 'hand_made'
     w = W.World.shared()
     w.begin_item()
     acc = core.Acc()
@@ -113,20 +117,20 @@ def execute(item):
             else:
                 now = AST + TD(seconds=off)
                 q = dict(opts, start=crawl.iso(AST), depth='30')
-            run_manifest(w, acc, name, periods, ppk, mode, q, now, total)
+            run_manifest(w, acc, name, periods, ppk, mode, q, now, total, template)
     finally:
         w.reset()
     return acc
 
 
-def run_manifest(w, acc, name, periods, ppk, mode, q, now, total):
-    url = crawl.manifest_url(mode, name, 'hand_made', q, mps=True)
+def run_manifest(w, acc, name, periods, ppk, mode, q, now, total, template='hand_made'):
+    url = crawl.manifest_url(mode, name, template, q, mps=True)
     W.set_now(now)
     r = w.get(url)
     acc.count('evaluations')
     acc.count('transitions')
     acc.outcome(('manifest', mode, r.status))
-    rec = {'periods': periods, 'mode': mode, 'q': q, 'now': crawl.iso(now)}
+    rec = {'periods': periods, 'mode': mode, 'q': q, 'now': crawl.iso(now), 'template': template}
     shape = f'{len(periods)}p'
 
     def bad(clause, text, **kw):
@@ -142,6 +146,14 @@ def run_manifest(w, acc, name, periods, ppk, mode, q, now, total):
         bad('manifest-unreadable', f'{type(e).__name__}: {e}')
         return
     acc.count('traces')
+    if template != 'hand_made':
+        # the templates written for single-period streams: one structural fact is judged (is this a document of as many
+        # Periods as were defined); what else is wrong with such a document follows from it
+        acc.nontriv((tuple(brief(periods)), mode, template))
+        if len(periods) > 1 and len(doc.periods) == 1:
+            bad('single-period-template', f'{template} renders one Period for a definition of {len(periods)} Periods '
+                f'(its media URLs are those of the first Period only)')
+        return
     # period chain
     ids = [p.id for p in doc.periods]
     if len(ids) != len(set(ids)):
@@ -358,6 +370,13 @@ def run(ctx):
             items.append((di, periods, 'live', {'timeline': '1'}, offs[:2]))
         if not ctx.quick:
             items.append((di, periods, 'vod', {'drm': 'all'}, [0]))
+    # the other manifest templates on the multi-period route
+    multis = [(di, p) for di, p in enumerate(defs) if len(p) >= 2][:: (12 if ctx.quick else 4)]
+    for di, periods in multis:
+        total = sum(p['duration'] for p in periods)
+        for template in OTHER_TEMPLATES:
+            items.append((di, periods, 'vod', {}, [0], template))
+            items.append((di, periods, 'live', {}, [total * 0.4, total + 1.0], template))
     ctx.merge_all(ctx.pmap(execute, items, chunksize=2))
     ctx.extra.update(definitions=len(defs), work_items=len(items),
                      generator='periods over {bbb, tears, synirr} x start {0, 1 seg, 1.5 seg, last-1 seg} x duration '
@@ -382,7 +401,8 @@ def replay(record):
             ppk = {p.pid: (p.pk, p.stream.directory, p.start.total_seconds(), p.duration.total_seconds())
                    for p in mps.periods}
             w.models.db.session.remove()
-        run_manifest(w, acc, name, periods, ppk, record['mode'], record['q'], now, sum(p['duration'] for p in periods))
+        run_manifest(w, acc, name, periods, ppk, record['mode'], record['q'], now, sum(p['duration'] for p in periods),
+                     record.get('template', 'hand_made'))
     finally:
         w.reset()
     # the mps name is part of the URL in the text but not of the signature
